@@ -1,9 +1,14 @@
 // C16 conformance driver, engine.  Executes the batched / AVX2 / AVX512 add, sub, mul overloads of Goldilocks3 (library built
 // from the tree under check) through the generated call sites and records one ndjson event per call.
 //
-// case line:  <ci> <row id> <seed> <mode> <sa> <sb> <sc> <ia> <ib> <ic>
+// case line:  <ci> <row id> <seed> <mode> <sa> <sb> <sc> <ia> <ib> <ic> [<alias: none|a|b>]
 //             strides 0 when the row has no such parameter; index lists "o0,o1,..." or "-"; mode 0: operand coefficients are
 //             vh::Rng::word() (all representations), 1: half of them from a corner list.
+//             alias a / b: the result is the SAME object as that operand (register rows: the generated in-place call site
+//             passes the result's registers as the operand; array rows: result pointer == operand pointer, the operand is
+//             addressed exactly like the result).  Operands are read back BEFORE the call.
+//             An input stride >= 2^24 gets a sparse arena: the whole extent is reserved PROT_NONE (MAP_NORESERVE), only the
+//             pages that hold designated cells are accessible, the end of the extent still abuts an inaccessible page.
 // Per case the call is executed twice on identical operand values:
 //   * every array operand lives in an exact-extent arena (vh::galloc: the cell after the last designated one is an
 //     inaccessible page), index lists and the precomputed sums too; undesignated cells hold run-specific garbage that
@@ -27,7 +32,101 @@ struct Params
     int mode;
     uint64_t sa, sb, sc;
     std::vector<uint64_t> ia, ib, ic;
+    int al = 0; // 0 none, 1: result aliased to a, 2: to b
 };
+static const uint64_t WIDE = 1ULL << 24;
+struct Skip
+{
+    const char *why;
+};
+struct HarnessError
+{
+    const char *why;
+};
+
+// ---- arenas: dense (vh::galloc, exact extent in front of a guard page) or sparse (huge strides)
+struct Arena
+{
+    bool live = false, sparse = false, shared = false;
+    vh::GBuf g;
+    uint8_t *base = nullptr;
+    size_t maplen = 0;
+    uint64_t *p = nullptr;
+    uint64_t n = 0;
+    std::vector<std::pair<uint64_t, uint64_t>> acc; // accessible cell ranges [lo, hi)
+    uint8_t *slack_lo = nullptr;
+    size_t slack_len = 0;
+};
+static void arena_dense(Arena &A, uint64_t n)
+{
+    A.g = vh::galloc(n, 0);
+    A.p = A.g.p;
+    A.n = n;
+    A.live = true;
+    A.acc.push_back({0, n});
+}
+static void arena_sparse(Arena &A, uint64_t n, const std::vector<uint64_t> &cells)
+{
+    const uintptr_t ps = 4096;
+    uint64_t bytes = n * 8;
+    A.maplen = (size_t)(((bytes + ps - 1) / ps) * ps + 2 * ps);
+    void *m = mmap(nullptr, A.maplen, PROT_NONE, MAP_PRIVATE | MAP_ANONYMOUS | MAP_NORESERVE, -1, 0);
+    if (m == MAP_FAILED)
+        throw Skip{"cannot reserve the address range of a huge stride"};
+    A.base = (uint8_t *)m;
+    A.sparse = true;
+    A.live = true;
+    A.n = n;
+    uint8_t *end = A.base + A.maplen - ps;
+    A.p = (uint64_t *)(end - bytes);
+    std::vector<uintptr_t> pages;
+    for (uint64_t j : cells)
+        pages.push_back(((uintptr_t)(A.p + j)) & ~(ps - 1));
+    std::sort(pages.begin(), pages.end());
+    pages.erase(std::unique(pages.begin(), pages.end()), pages.end());
+    for (uintptr_t pg : pages)
+    {
+        if (mprotect((void *)pg, ps, PROT_READ | PROT_WRITE) != 0)
+            throw Skip{"cannot commit a page of a sparse arena"};
+        uint64_t lo = pg <= (uintptr_t)A.p ? 0 : (pg - (uintptr_t)A.p) / 8;
+        uint64_t hi = std::min<uint64_t>(n, (pg + ps - (uintptr_t)A.p) / 8);
+        A.acc.push_back({lo, hi});
+        if (pg < (uintptr_t)A.p)
+        {
+            A.slack_lo = (uint8_t *)pg;
+            A.slack_len = (uintptr_t)A.p - pg;
+            memset(A.slack_lo, 0xC7, A.slack_len);
+        }
+    }
+}
+static bool arena_slack_ok(const Arena &A)
+{
+    if (!A.live)
+        return true;
+    if (!A.sparse)
+        return vh::gslack_ok(A.g);
+    for (size_t i = 0; i < A.slack_len; i++)
+        if (A.slack_lo[i] != 0xC7)
+            return false;
+    return true;
+}
+static void arena_free(Arena &A)
+{
+    if (!A.live || A.shared)
+        return;
+    if (A.sparse)
+        munmap(A.base, A.maplen);
+    else
+        vh::gfree(A.g);
+    A.live = false;
+}
+static std::vector<uint64_t> arena_snap(const Arena &A)
+{
+    std::vector<uint64_t> v;
+    for (auto &r : A.acc)
+        v.insert(v.end(), A.p + r.first, A.p + r.second);
+    return v;
+}
 
 static bool in_mem(const Desc &d) { return d.kind == K_CONTIG || d.kind == K_STRIDE || d.kind == K_INDEX || (d.kind == K_CONST && d.w == 3); }
 // position of coefficient i of element k (mirrors Layout16!Addr; the trace specification re-derives it from the table row)
@@ -76,8 +175,9 @@ struct Opnd
     Desc d;
     uint64_t s = 0;
     std::vector<uint64_t> idx;
-    vh::GBuf g, gi;
-    bool mem = false, hasidx = false;
+    Arena g;
+    vh::GBuf gi;
+    bool mem = false, hasidx = false, wide = false, aliased = false;
     std::vector<uint64_t> snap;
     uint64_t n = 0;
 };
@@ -86,7 +186,7 @@ struct Res
     uint64_t a[8][3], b[8][3], x[8][3], r[8][3];
     std::vector<uint64_t> out, pre;
     uint64_t an = 0, bn = 0, cn = 0;
-    bool inw = true, slack = true;
+    bool inw = true, slack = true, wa = false, wb = false;
     Res()
     {
         memset(a, 0, sizeof(a));
@@ -105,21 +205,33 @@ static void prep_index(Opnd &o, int L)
         o.gi.p[k] = o.idx[k];
     o.hasidx = true;
 }
-static void setup_input(Opnd &o, int L, Regs &R, Goldilocks::Element &v, vh::Rng &vr, vh::Rng &gr, int mode)
+static void setup_input(Opnd &o, int L, Regs &R, Goldilocks::Element &v, vh::Rng &vr, vh::Rng &gr, int mode, uint64_t gseed, int run)
 {
     prep_index(o, L);
     if (in_mem(o.d))
     {
         o.mem = true;
         o.n = extent(o.d, L, o.s, o.idx);
-        o.g = vh::galloc(o.n, 0);
-        for (uint64_t j = 0; j < o.n; j++)
-            o.g.p[j] = gr.next();
+        o.wide = o.d.kind == K_STRIDE && o.s >= WIDE;
+        if (o.wide)
+        {
+            std::vector<uint64_t> cells;
+            for (int k = 0; k < L; k++)
+                for (int i = 0; i < o.d.w; i++)
+                    cells.push_back(addr(o.d, k, i, o.s, o.idx));
+            arena_sparse(o.g, o.n, cells);
+        }
+        else
+            arena_dense(o.g, o.n);
+        // run-specific garbage in every (accessible) cell; the two runs are complementary
+        for (auto &rg : o.g.acc)
+            for (uint64_t j = rg.first; j < rg.second; j++)
+                o.g.p[j] = run ? ~mix(gseed, j) : mix(gseed, j);
         int nk = o.d.kind == K_CONST ? 1 : L;
         for (int k = 0; k < nk; k++)
             for (int i = 0; i < o.d.w; i++)
                 o.g.p[addr(o.d, k, i, o.s, o.idx)] = val(vr, mode);
-        o.snap.assign(o.g.p, o.g.p + o.n);
+        o.snap = arena_snap(o.g);
     }
     else if (o.d.kind == K_CONST)
         v.fe = val(vr, mode);
@@ -150,18 +262,18 @@ static void read_vals(const Opnd &o, int L, const Regs &R, const Goldilocks::Ele
 static bool unchanged(const Opnd &o, int L, bool arena = true)
 {
     bool ok = true;
-    if (arena && o.mem)
-        ok = ok && memcmp(o.g.p, o.snap.data(), o.n * 8) == 0;
+    if (arena && o.mem && !o.aliased)
+        ok = ok && arena_snap(o.g) == o.snap;
     if (o.hasidx)
         for (int k = 0; k < L; k++)
             ok = ok && o.gi.p[k] == o.idx[k];
     return ok;
 }
-static bool slack_ok(const Opnd &o) { return (!o.mem || vh::gslack_ok(o.g)) && (!o.hasidx || vh::gslack_ok(o.gi)); }
+static bool slack_ok(const Opnd &o) { return (!o.mem || arena_slack_ok(o.g)) && (!o.hasidx || vh::gslack_ok(o.gi)); }
 static void release(Opnd &o)
 {
     if (o.mem)
-        vh::gfree(o.g);
+        arena_free(o.g);
     if (o.hasidx)
         vh::gfree(o.gi);
 }
@@ -173,11 +285,22 @@ static void one_run(const Row &row, const Params &P, int run, Res &res)
     Ctx x;
     memset(&x, 0, sizeof(x));
     Opnd A, B, C;
+    struct Guard
+    {
+        Opnd *o[3];
+        ~Guard()
+        {
+            for (auto q : o)
+                release(*q);
+        }
+    } guard{{&C, &A, &B}};
     A.d = row.a; A.s = P.sa; A.idx = P.ia;
     B.d = row.b; B.s = P.sb; B.idx = P.ib;
     C.d = row.c; C.s = P.sc; C.idx = P.ic;
-    setup_input(A, L, x.A, x.va, vr, gr, P.mode);
-    setup_input(B, L, x.B, x.vb, vr, gr, P.mode);
+    if ((P.al == 1 && !row.alias_a) || (P.al == 2 && !row.alias_b))
+        throw HarnessError{"alias mode not offered by the row"};
+    setup_input(A, L, x.A, x.va, vr, gr, P.mode, P.seed ^ 0xA0A0A0, run);
+    setup_input(B, L, x.B, x.vb, vr, gr, P.mode, P.seed ^ 0xB1B1B1, run);
     read_vals(A, L, x.A, x.va, res.a);
     read_vals(B, L, x.B, x.vb, res.b);
     // precomputed sums of b (challenge variants): b0+b1, b0+b2, b1+b2 in some representation
@@ -219,19 +342,45 @@ static void one_run(const Row &row, const Params &P, int run, Res &res)
     }
     // result
     prep_index(C, L);
+    Opnd *AL = P.al == 1 ? &A : P.al == 2 ? &B : nullptr;
     if (in_mem(C.d))
     {
         C.mem = true;
         C.n = extent(C.d, L, C.s, C.idx);
-        C.g = vh::galloc(C.n, 0);
-        for (uint64_t j = 0; j < C.n; j++)
-            C.g.p[j] = run ? ~mix(P.seed ^ 0xC16C16, j) : mix(P.seed ^ 0xC16C16, j);
+        if (AL)
+        {
+            // in place: the result arena IS the operand's arena (pointer equality), addressed identically
+            if (!AL->mem || AL->wide || AL->n != C.n)
+                throw HarnessError{"aliased operand and result have different extents"};
+            for (int k = 0; k < L; k++)
+                for (int i = 0; i < 3; i++)
+                    if (addr(C.d, k, i, C.s, C.idx) != addr(AL->d, k, i, AL->s, AL->idx))
+                        throw HarnessError{"aliased operand is not addressed like the result"};
+            C.g = AL->g;
+            C.g.shared = true;
+            AL->aliased = true;
+        }
+        else
+        {
+            arena_dense(C.g, C.n);
+            for (uint64_t j = 0; j < C.n; j++)
+                C.g.p[j] = run ? ~mix(P.seed ^ 0xC16C16, j) : mix(P.seed ^ 0xC16C16, j);
+        }
         res.pre.assign(C.g.p, C.g.p + C.n);
     }
     else
+    {
         for (int j = 0; j < 24; j++)
             x.C.raw[j] = gr.next();
+        if (AL)
+        {
+            if (AL->mem || AL->d.w != 3)
+                throw HarnessError{"register result aliased to a non-register operand"};
+            x.C = P.al == 1 ? x.A : x.B; // the in-place call site passes x.C as the operand
+        }
+    }
     res.an = A.n; res.bn = B.n; res.cn = C.n;
+    res.wa = A.wide; res.wb = B.wide;
     x.pa = A.mem ? (Goldilocks::Element *)A.g.p : nullptr;
     x.pb = B.mem ? (Goldilocks::Element *)B.g.p : nullptr;
     x.pc = C.mem ? (Goldilocks::Element *)C.g.p : nullptr;
@@ -240,7 +389,12 @@ static void one_run(const Row &row, const Params &P, int run, Res &res)
     x.ib = B.hasidx ? B.gi.p : nullptr;
     x.ic = C.hasidx ? C.gi.p : nullptr;
 
-    row.call(x);
+    void (*fn)(Ctx &) = row.call;
+    if (AL && !C.mem)
+        fn = P.al == 1 ? row.call_a : row.call_b;
+    if (!fn)
+        throw HarnessError{"no in-place call site"};
+    fn(x);
 
     for (int k = 0; k < L; k++)
         for (int i = 0; i < 3; i++)
@@ -249,9 +403,6 @@ static void one_run(const Row &row, const Params &P, int run, Res &res)
         res.out.assign(C.g.p, C.g.p + C.n);
     res.inw = unchanged(A, L) && unchanged(B, L) && unchanged(C, L, false) && (!hasx || memcmp(gx.p, xsnap.data(), 24) == 0);
     res.slack = slack_ok(A) && slack_ok(B) && slack_ok(C) && (!hasx || vh::gslack_ok(gx));
-    release(A);
-    release(B);
-    release(C);
     if (hasx)
         vh::gfree(gx);
 }
@@ -292,8 +443,29 @@ static void do_case(vh::Out &o, const Row &row, const Params &P)
 {
     const int L = row.L;
     Res r1, r2;
-    one_run(row, P, 0, r1);
-    one_run(row, P, 1, r2);
+    try
+    {
+        one_run(row, P, 0, r1);
+        one_run(row, P, 1, r2);
+    }
+    catch (Skip &sk)
+    {
+        o.begin("skip");
+        o.num("ci", P.ci);
+        o.str("id", P.id);
+        o.str("why", sk.why);
+        o.end();
+        return;
+    }
+    catch (HarnessError &he)
+    {
+        o.begin("harness");
+        o.num("ci", P.ci);
+        o.str("id", P.id);
+        o.str("what", he.why);
+        o.end();
+        return;
+    }
     if (memcmp(r1.a, r2.a, sizeof(r1.a)) || memcmp(r1.b, r2.b, sizeof(r1.b)) || memcmp(r1.x, r2.x, sizeof(r1.x)) || r1.pre.size() != r2.pre.size())
     {
         // the two runs must see identical operands: anything else is a defect of this harness, not of the library
@@ -320,17 +492,28 @@ static void do_case(vh::Out &o, const Row &row, const Params &P)
     o.num("ci", P.ci);
     o.str("id", P.id);
     o.num("lanes", L);
-    o.num("sa", P.sa);
-    o.num("sb", P.sb);
+    o.str("al", P.al == 1 ? "a" : P.al == 2 ? "b" : "none");
+    // a huge stride does not fit a TLC integer: it is logged as limbs (saw / sbw), with positions apw / bpw and extent anw / bnw
+    o.boolean("wa", r1.wa);
+    o.boolean("wb", r1.wb);
+    o.num("sa", r1.wa ? 0 : P.sa);
+    o.num("sb", r1.wb ? 0 : P.sb);
     o.num("sc", P.sc);
+    o.w64("saw", P.sa);
+    o.w64("sbw", P.sb);
     o.raw("ia", ints(row.a.kind == K_INDEX ? P.ia : std::vector<uint64_t>()));
     o.raw("ib", ints(row.b.kind == K_INDEX ? P.ib : std::vector<uint64_t>()));
     o.raw("ic", ints(row.c.kind == K_INDEX ? P.ic : std::vector<uint64_t>()));
-    o.num("an", r1.an);
-    o.num("bn", r1.bn);
+    std::vector<uint64_t> fa = firsts(row.a, L, P.sa, P.ia), fb = firsts(row.b, L, P.sb, P.ib), none;
+    o.num("an", r1.wa ? 0 : r1.an);
+    o.num("bn", r1.wb ? 0 : r1.bn);
     o.num("cn", r1.cn);
-    o.raw("ap", ints(firsts(row.a, L, P.sa, P.ia)));
-    o.raw("bp", ints(firsts(row.b, L, P.sb, P.ib)));
+    o.w64("anw", r1.an);
+    o.w64("bnw", r1.bn);
+    o.raw("ap", ints(r1.wa ? none : fa));
+    o.raw("bp", ints(r1.wb ? none : fb));
+    o.w64arr("apw", fa.data(), r1.wa ? fa.size() : 0);
+    o.w64arr("bpw", fb.data(), r1.wb ? fb.size() : 0);
     o.raw("cp", ints(firsts(row.c, L, P.sc, P.ic)));
     o.raw("a", triples(r1.a, L, row.a.w));
     o.raw("b", triples(r1.b, L, row.b.w));
@@ -397,6 +580,7 @@ int main(int argc, char **argv)
         P.ia = parse_list(t[7]);
         P.ib = parse_list(t[8]);
         P.ic = parse_list(t[9]);
+        P.al = t.size() > 10 ? (t[10] == "a" ? 1 : t[10] == "b" ? 2 : 0) : 0;
         auto it = byid.find(P.id);
         if (it == byid.end())
         {
